@@ -22,7 +22,7 @@ RULE = ("histories = sequences over 7 public edit operations followed by 'refine
         "distinct = distinct (pair, options, history, quiet, colour)")
 ASSUMPTIONS = ["signature compares sub-edits of ordered containers in order and of unordered containers as multisets",
                "reference = the signature reached by the canonical driver (the loop of TreeNode.diff) on fresh trees"]
-MINIMUMS = {"quick": {"command_lines_compared_across_status_settings": 400, "histories_judged": 8000, "shape:tighten-tighten": 300, "shape:edits-before-complete": 1000,
+MINIMUMS = {"quick": {"renderings_compared_with_fully_refined_twin": 300, "command_lines_compared_across_status_settings": 400, "histories_judged": 8000, "shape:tighten-tighten": 300, "shape:edits-before-complete": 1000,
                       "shape:abandon-then-resume": 500, "non-quiet": 2000, "colour_renderings": 300},
             "thorough": {"histories_judged": 200000, "shape:tighten-tighten": 20000, "shape:edits-before-complete": 20000,
                          "shape:abandon-then-resume": 10000, "non-quiet": 50000, "colour_renderings": 5000}}
@@ -59,6 +59,8 @@ def plan(tier, seed):
     for fam in ["basic", "xml", "csv", "plist", "dataclass", "pyobj"]:
         specs.append({"stratum": f"sampled-{fam}", "family": fam, "n": per if not q else 150, "k": 0, "clean": True})
     specs.append({"stratum": "sampled-mset-dup", "family": "mset", "n": 150 if q else 3000, "k": 0, "case_timeout": 10})
+    specs.append({"stratum": "rendering-of-edits-left-half-refined-by-diff", "n": 400 if q else 5000, "k": 0, "clean": True,
+                  "halfrefined": True})
     for k in range(2 if q else 8):
         specs.append({"stratum": "command-line-status-settings", "n": 120 if q else 1500, "k": k, "clean": True, "cli_status": True,
                       "shrink": False})
@@ -77,6 +79,29 @@ def gen_cases(spec, ctx):
             yield {"cli_status": True, "type": t, "a": a, "b": b, "ds": r.choice(gen.DS), "le": r.choice(gen.LE),
                    "mode": r.choice([[], [], ["-e"], ["-d"], ["-j"], ["--color"]]),
                    "fmt": r.choice([None, None, None, "yaml", "json", "xml", "csv", "plist"])}
+        return
+    if spec.get("halfrefined"):
+        # diff() stops refining as soon as the top-level edit is complete; edits further down may still be ranges whose lower end
+        # is 0 (a same-length string replacement under a renamed key, say). What is printed for them must not depend on that.
+        for _ in range(spec["n"]):
+            def word(n_):
+                return "".join(r.choice("abcdefgh") for _ in range(n_))
+            n_ = r.randint(3, 8)
+            inner_a = {"name": word(n_), "x": r.choice([2, [2, 3], "k"])}
+            inner_b = dict(inner_a, name=word(n_))
+            if r.random() < 0.4:
+                inner_a, inner_b = [inner_a["name"], 2], [inner_b["name"], 2]
+            key = word(r.randint(2, 6))
+            a = {"id": 7, key: inner_a}
+            b = {"id": 7, key + r.choice(["s", "x", "_2"]): inner_b}
+            for _k in range(r.randint(0, 2)):
+                kk = word(3)
+                a[kk] = b[kk] = r.choice([2, "same", [2]])
+            if r.random() < 0.3:
+                a, b = [a, 2], [b, 2]
+            yield {"family": "json", "a": a, "b": b, "ds": r.choice(["auto", "match"]), "le": r.choice(gen.LE),
+                   "ops": [r.choice(OPS) for _ in range(r.randint(0, 3))], "k": r.randrange(1 << 16), "quiet": r.random() < 0.5,
+                   "colour": r.choice([True, False])}
         return
     if spec.get("exhaustive"):
         base = FIXED[spec["pair"]]
@@ -219,6 +244,27 @@ def check(case, ctx):
                     # whether rendering completes is C13's property; here only "rendering must not change the result"
                     if ctx is not None:
                         ctx.count("render_raised_left_to_C13:" + type(ex).__name__)
+                text1 = out.getvalue()
+                # the printed script itself must not depend on how far the edits happened to be refined before printing: a second
+                # diff tree of the same pair has every edit it carries refined to the end first, and is then printed the same way
+                try:
+                    ta2, tb2 = families.build(case)
+                    d2 = ta2.diff(tb2)
+                    for n_ in d2.dfs():
+                        for e_ in getattr(n_, "edit_list", None) or ():
+                            monitors.full(e_)
+                    out2 = io.StringIO()
+                    p2 = gp.Printer(out_stream=out2, ansi_color=bool(case["colour"]), quiet=True)
+                    fmt.print(p2, d2)
+                    if ctx is not None:
+                        ctx.count("renderings_compared_with_fully_refined_twin")
+                    if out2.getvalue() != text1:
+                        diags.append({"kind": "printed-script-depends-on-how-far-edits-were-refined", "as_diffed": text1[:300],
+                                      "fully_refined": out2.getvalue()[:300]})
+                except core.Budget:
+                    raise
+                except Exception:  # noqa  (rendering errors are C13's)
+                    pass
                 top = (getattr(d, "edit_list", None) or [d.edit])[0]
                 for i, op in enumerate(ops):
                     apply(top, op, case.get("k", 0) + i)
